@@ -67,6 +67,17 @@ theorem pres_attempt {x : M α} (hx : Pres P x) : Pres P (attempt x) := by
     rw [hxs] at h1
     cases r <;> exact h1
 
+theorem pres_attemptLoad {x : M α} (prop : Bool) (hx : Pres P x) : Pres P (attemptLoad prop x) := by
+  intro s hs
+  have h1 := hx s hs
+  unfold attemptLoad
+  cases hxs : x s with
+  | mk r s' =>
+    rw [hxs] at h1
+    cases r with
+    | ok a => exact h1
+    | error e => dsimp only; split <;> exact h1
+
 theorem pres_forEach {l : List α} {f : α → M Unit} (h : ∀ a, Pres P (f a)) : Pres P (forEach l f) := by
   induction l with
   | nil => exact pres_pure ()
